@@ -8,6 +8,12 @@
       s     (processors) SmartInstantiationAware (InstantiationAware + GetEarlyBeanReference)
       markers   loaders:    !  LoadConfig fails      +  non-empty config      *  non-empty config that SetConfig rejects
                 runners:    !  Run fails      e  zero-size Go type (no effect on the model)
+                            c  Order() answers a field bound from configuration, which holds k: when the runners are started
+                               (app.go:142 sorts THEN, after Refresh has populated every component) the answer is k
+                processors and runners:
+                            t  the instance is listed twice in the application's SetComponents call
+                            u  the instance is listed once more in a second SetComponents option applied after it
+                               (`registered`: registry.RegisterSingleton ignores the same object under a taken name)
                 processors: !  Before… fails   ?  Before… returns nil   ^  After… fails   ~  After… returns nil
                             z  LazyInit (definition.LazyInitComponent): appended to the chain as registered, at its sorted
                                position (delegate:51 skips the factory lookup); every other processor is fetched from the factory
@@ -121,6 +127,13 @@ def resolveIn (sorted : List Tok) (t : Tok) : Option Tok :=
   if t.lazy then some t
   else some { t with decorated := (sorted.takeWhile (fun u => u.id != t.id)).any Tok.decorates }
 
+/-- what the singleton registry holds of one section (processors / runners) of a start line after all SetComponents
+    options ran: the application's own list — marker `t`: listed twice — and then a second option with the instances
+    marked `u`; every registration goes through `registerSingleton` (names = ids: `ordP<id>` / `ordR<id>`).
+    `C12_registered_routes`: this is the section itself. -/
+def registered (l : List Tok) : List Tok :=
+  registerAll Tok.id (listed (fun t => t.marks.contains 't') l ++ l.filter (fun t => t.marks.contains 'u'))
+
 /-- split `L … P … R …` into its three sections -/
 def sections (ws : List String) : Option (List String × List String × List String) :=
   match ws with
@@ -219,8 +232,8 @@ def handle (line : String) : String :=
     | some (ls, ps, rs) =>
       match parseToks ls 0, parseToks ps 0, parseToks rs 0 with
       | some l, some p, some r =>
-        showStart true (startC theSort Tok.part loadRes (resolveIn (sortOrdered theSort Tok.part p)) Tok.inst (fun _ => .skip)
-                   beforeCb afterCb (fun t => t.marks.contains '!') true Tok.smart (fun _ _ => some ()) l p r)
+        showStart true (startC theSort Tok.part loadRes (resolveIn (sortOrdered theSort Tok.part (registered p))) Tok.inst (fun _ => .skip)
+                   beforeCb afterCb (fun t => t.marks.contains '!') true Tok.smart (fun _ _ => some ()) l (registered p) (registered r))
       | _, _, _ => "bad-line"
     | none => "bad-line"
   | "SB" :: ws =>
@@ -228,8 +241,8 @@ def handle (line : String) : String :=
     | some (ls, ps, rs) =>
       match parseToks ls 0, parseToks ps 0, parseToks rs 0 with
       | some l, some p, some r =>
-        showStartB (startB theSort Tok.part loadRes (resolveIn (sortOrdered theSort Tok.part p)) true Tok.inst biCb (fun _ => .skip)
-                   beforeCbB afterCbB (fun t => t.marks.contains '!') (fun _ => { sup := none, wraps := [] }) ['b', 'd'] l p r)
+        showStartB (startB theSort Tok.part loadRes (resolveIn (sortOrdered theSort Tok.part (registered p))) true Tok.inst biCb (fun _ => .skip)
+                   beforeCbB afterCbB (fun t => t.marks.contains '!') (fun _ => { sup := none, wraps := [] }) ['b', 'd'] l (registered p) (registered r))
       | _, _, _ => "bad-line"
     | none => "bad-line"
   | "D" :: toks =>
@@ -241,8 +254,8 @@ def handle (line : String) : String :=
     | some (ls, ps, rs) =>
       match parseToks ls 0, parseToks ps 0, parseToks rs 0 with
       | some l, some p, some r =>
-        showStart false (start theSort Tok.part loadRes (resolveIn (sortOrdered theSort Tok.part p)) Tok.inst (fun _ => .skip)
-                   beforeCb afterCb (fun t => t.marks.contains '!') l p r)
+        showStart false (start theSort Tok.part loadRes (resolveIn (sortOrdered theSort Tok.part (registered p))) Tok.inst (fun _ => .skip)
+                   beforeCb afterCb (fun t => t.marks.contains '!') l (registered p) (registered r))
       | _, _, _ => "bad-line"
     | none => "bad-line"
   | _ => "bad-line"
